@@ -181,13 +181,18 @@ def item(draw, names, rich=True, keys=None, want_zid=None):
             pool += ["P1", "P9", "P0"]
         first[0] = W(draw(st.sampled_from(pool)))
     lines = [{"ind": "", "words": first}]
+    headline_prop = rich and draw(st.integers(0, 11)) == 0
+    if headline_prop:
+        # the headline itself is a bullet-style property: "- [fields] key:: value words"
+        vs = [draw(st.sampled_from(PLAIN + ["12", "o", "2024-01-02"])) for _ in range(draw(st.integers(1, 4)))]
+        lines = [{"ind": "", "bprop": [names.next("hk"), vs]}]
     if rich:
         nb = draw(st.sampled_from([0, 0, 0, 0, 1, 1, 2, 3]))
         have_bullet = False
         level = 0
         for _ in range(nb):
             choice = draw(st.integers(0, 9))
-            if choice < 3 and level == 0:
+            if choice < 3 and level == 0 and not headline_prop:
                 lines.append({"ind": "  ", "words": draw(words(names, 1, 6, first_plain=False, keys=keys))})
             elif choice < 7:
                 lines.append({"ind": "  * ", "words": draw(words(names, 1, 6, first_plain=False, keys=keys))})
@@ -197,7 +202,7 @@ def item(draw, names, rich=True, keys=None, want_zid=None):
                 level = 2
             elif choice == 8 and level >= 2:
                 lines.append({"ind": "      + ", "words": draw(words(names, 1, 4, first_plain=True, keys=keys))})
-            else:
+            elif level or not headline_prop:
                 lines.append({"ind": "    " if level else "  ", "words": draw(words(names, 1, 4, first_plain=True, keys=keys))})
         # bullet-style properties at the very end of the item (value = rest of that bullet).  All bullet
         # properties of one note sit on the same bullet level: L1, or inside a "drawer" on L2 / L3.
